@@ -390,6 +390,8 @@ def call_bound(it, f: BoundBuiltin, args, kwargs):
         raise Unsupported(f"datetime.{name}")
     if isinstance(t, VRef):
         h = it.ctx.deref(t)
+        if isinstance(h, HObj) and h.cls == "ext:asyncio.Task":
+            return task_method(it, t, h, name, args, kwargs)
         if isinstance(h, HObj) and h.cls.startswith("ext:"):
             return ext_method(it, t, h, name, args, kwargs)
         if isinstance(h, HList):
@@ -886,8 +888,67 @@ def deque_model(it, args, kwargs):
     return it.ctx.alloc(HSymList(kept, maxlen))
 
 
+def fresh_outcome(it):
+    z = z3.Int(fresh_name("task_outcome"))
+    it.ctx.assume(z3.And(z >= 0, z < 3))
+    return SEnum("task_outcome", ["returned", "Exception", "CancelledError"], z)
+
+
+def task_method(it, ref, h, name, args, kwargs):
+    """asyncio.Task: done / result / exception / cancel / add_done_callback / get_name."""
+    _use(it, "model:asyncio.Task (done(), result() re-raises the task's exception, add_done_callback records the callback, "
+             "cancel() requests cancellation)")
+    f = h.fields
+    if name == "done":
+        return f["_done"]
+    if name == "cancelled":
+        d = it.truth(f["_done"])
+        return it.wrap_bool(it.and_(d, it.truth(it.equal(f["_outcome"], VEnum("task_outcome", "CancelledError")))))
+    if name in ("result", "exception"):
+        if not it.decide(f["_done"], "task is done"):
+            raise PyRaise("InvalidStateError")
+        oc = f["_outcome"]
+        members = oc.members if isinstance(oc, SEnum) else [oc.name]
+        for i, m in enumerate(members):
+            if len(members) == 1 or it.decide(it.equal(oc, VEnum("task_outcome", m)), f"task outcome is {m}"):
+                if m == "returned":
+                    return None
+                if name == "exception" and m != "CancelledError":
+                    return ExcValue(m)
+                raise PyRaise(m)
+        raise PyRaise("InvalidStateError")
+    if name == "add_done_callback":
+        it.ctx.mutate()
+        it.ctx.deref(f["callbacks"]).items.append(args[0])
+        return None
+    if name == "cancel":
+        it.ctx.mutate()
+        f["cancel_requested"] = True
+        return it.wrap_bool(it.not_(it.truth(f["_done"])))
+    if name == "get_name":
+        return f.get("name", Opaque("task-name"))
+    raise Unsupported(f"Task.{name}")
+
+
 def call_asyncio(it, name, args, kwargs):
     from .values import Coro
+    if name == "create_task":
+        _use(it, "model:asyncio.create_task returns a fresh task that is not done; the coroutine is started "
+                 "(calls it makes to scripted collaborators are recorded at creation)")
+        co = args[0]
+        if isinstance(co, Coro):
+            # the task is in flight from now on: what it calls on scripted collaborators is recorded here
+            try:
+                it.engine.run_coro(it, co)
+            except PyRaise:
+                pass
+        t = it.ctx.alloc(HObj("ext:asyncio.Task", {
+            "_done": False, "_outcome": fresh_outcome(it),
+            "callbacks": it.ctx.alloc(HList([])), "cancel_requested": False, "name": kwargs.get("name", Opaque("task-name")),
+            "__methods__": {}, "__stream__": None, "calls": it.ctx.alloc(HList([])), "results": it.ctx.alloc(HList([]))}))
+        created = it.ctx.ghost.setdefault("created_tasks", it.ctx.alloc(HList([])))
+        it.ctx.deref(created).items.append(t)
+        return t
     if name == "gather":
         _use(it, "model:asyncio.gather runs every awaitable once, results positionally (exceptions as values with return_exceptions)")
         ret_exc = it.decide(kwargs.get("return_exceptions", False))
